@@ -204,7 +204,12 @@ func expandItems(target Schema, parentRefs []string, resolver *schemaLoader, bas
 func expandSchema(target Schema, parentRefs []string, resolver *schemaLoader, basePath string) (*Schema, error) {
 	if target.Ref.String() == "" && target.Ref.IsRoot() {
 		newRef := normalizeRef(&target.Ref, basePath)
-		target.Ref = *newRef
+		if resolver.options.SkipSchemas || !resolver.options.AbsoluteCircularRef {
+			// like every other $ref left in place: written relative to the root document
+			target.Ref = denormalizeRef(newRef, resolver.context.basePath, resolver.context.rootID)
+		} else {
+			target.Ref = *newRef
+		}
 		return &target, nil
 	}
 
